@@ -21,12 +21,12 @@ INVS = ['MinRunInv', 'MinRun0Inv', 'MinDownInv', 'MinDown0Inv', 'StartInv', 'Off
 
 
 def uc_cfg(cid, T, d=1, lo=1, hi=2, price=None, ramp=-1, minrun=0, mindown=0, run0=0, off0=0, last0=0, startcost=0, runcost=0,
-           heat=False, conv=(1, 1), share=(1, 1), fuel=False, feff=(1, 1), fuelon=0, fuelstart=0, q=1):
+           heat=False, conv=(1, 1), share=(1, 1), fuel=False, feff=(1, 1), fuelon=0, fuelstart=0, q=1, mlthr=0, mlcost=0):
     price = price or [-3, 1, -2, 2, -3, 1, -1, -2][:T]
     return dict(id=cid, T=T, d=d, lo=[lo] * T if not isinstance(lo, list) else lo, hi=[hi] * T if not isinstance(hi, list) else hi,
                 price=price, ramp=ramp, minrun=minrun, mindown=mindown, run0=run0, off0=off0, last0=last0,
                 startcost=[startcost] * T, runcost=runcost, heat=heat, conv=list(conv), share=list(share), fuel=fuel,
-                feff=list(feff), fuelon=fuelon, fuelstart=fuelstart, q=q)
+                feff=list(feff), fuelon=fuelon, fuelstart=fuelstart, q=q, mlthr=mlthr, mlcost=mlcost)
 
 
 def inits(mindown, lo, hi):
@@ -66,6 +66,16 @@ def fam_outputs(T, thorough=False):
             continue
         cid += 1
         out.append(uc_cfg(cid, T, lo=lo, hi=hi, ramp=ramp, minrun=mr, mindown=md, run0=r0, off0=o0, last0=l0, startcost=sc, runcost=rc))
+    return out
+
+
+def fam_min_load(T):
+    """CHP with minimum-load costs: threshold between / at / above the capacity limits"""
+    out = []
+    cid = 0
+    for (lo, hi), thr, mlc, sc, price in itertools.product([(1, 3), (0, 2)], (1, 2, 3), (1, 4), (0, 1), ([-3, 1, -2, 2], [-1, -1, -1, -1])):
+        cid += 1
+        out.append(uc_cfg(cid, T, lo=lo, hi=hi, price=price[:T], startcost=sc, heat=True, conv=(1, 1), share=(1, 1), mlthr=thr, mlcost=mlc))
     return out
 
 
@@ -109,7 +119,10 @@ class UCReal:
             kw.update(start_fuel=float(c['fuelstart']), fuel_efficiency=c['feff'][0] / c['feff'][1], consumption_if_on=c['fuelon'] / r)
         if c['heat']:
             kw.update(conversion_factor_power_heat=c['conv'][0] / c['conv'][1], max_share_heat=c['share'][0] / c['share'][1])
-            self.asset = eao.assets.CHPAsset(**kw)
+            if c.get('mlcost', 0) > 0:
+                self.asset = eao.assets.CHPAsset_with_min_load_costs(min_load_threshhold=c['mlthr'] / r, min_load_costs=c['mlcost'] / r, **kw)
+            else:
+                self.asset = eao.assets.CHPAsset(**kw)
         else:
             self.asset = eao.assets.Plant(**kw)
         self.prices = {'p': np.asarray(c['price'], float), 'lo': np.asarray(c['lo'], float) / r, 'hi': np.asarray(c['hi'], float) / r}
@@ -176,7 +189,8 @@ def run(tier, seed):
     th = tier == 'thorough'
     T = 6 if th else 5
     fams = [('patterns', fam_patterns(T, thorough=th), True), ('patterns_frac', fam_patterns(4 if not th else 5, d=2), True),
-            ('outputs', fam_outputs(4, thorough=th), False), ('fuel_heat', fam_fuel_heat(3 if not th else 4, thorough=th), False)]
+            ('outputs', fam_outputs(4, thorough=th), False), ('fuel_heat', fam_fuel_heat(3 if not th else 4, thorough=th), False),
+            ('min_load', fam_min_load(3 if not th else 4), False)]
     if th:
         fams.append(('patterns_T8', [c for k, c in enumerate(fam_patterns(8)) if k % 5 == seed % 5], True))
     traces, tmeta = [], []
